@@ -18,7 +18,16 @@ import hugr.model as model
 from hugr._serialization.ops import OpType as SerialOp
 from hugr._serialization.serial_hugr import SerialHugr
 from hugr.exceptions import ParentBeforeChild
-from hugr.ops import Call, Const, Custom, DataflowOp, Module, Op
+from hugr.ops import (
+    Call,
+    Const,
+    Custom,
+    DataflowOp,
+    LoadConst,
+    LoadFunc,
+    Module,
+    Op,
+)
 from hugr.tys import Kind, Type, ValueKind
 from hugr.utils import BiMap
 from hugr.val import Value
@@ -693,11 +702,29 @@ class Hugr(Mapping[Node, NodeData], Generic[OpVarCov]):
         # not counted in the number of ports.
         if p.offset < 0:
             assert p.offset == -1, "Only order edges are allowed with offset < 0"
-            offset = self.num_ports(p.node, p.direction)
+            offset = self._order_port_offset(p)
         else:
             offset = p.offset
 
         return offset
+
+    def _order_port_offset(self, p: InPort | OutPort) -> PortOffset:
+        """The offset the order port of `p`'s node is serialized at: the first
+        port after the value and static ports of the operation, independently
+        of how many of those ports are connected.
+        """
+        op = self[p.node].op
+        if isinstance(op, Call):
+            sig = op.instantiation
+        elif isinstance(op, DataflowOp):
+            sig = op.outer_signature()
+        else:
+            return self.num_ports(p.node, p.direction)
+        if p.direction == Direction.OUTGOING:
+            return len(sig.output)
+        # the static input port comes right after the value inputs
+        has_static_input = isinstance(op, Call | LoadConst | LoadFunc)
+        return len(sig.input) + int(has_static_input)
 
     def resolve_extensions(self, registry: ext.ExtensionRegistry) -> Hugr:
         """Resolve extension types and operations in the HUGR by matching them to
